@@ -368,4 +368,171 @@ theorem nodup_matchTopic (hd : out d = []) (l : Str) (ls : List Str) (hp : ∀ l
   have := nodup_sub d out hd (l :: ls) hp t hn hdis
   simpa [sub] using this
 
+/-! ### full traversal -/
+
+mutual
+/-- no node has two children under the same key (Go: `children` is a map) -/
+def WF : Trie β → Prop
+  | node _ ch => (AL.keys ch).Nodup ∧ WFCh ch
+def WFCh : List (Str × Trie β) → Prop
+  | [] => True
+  | (_, t) :: r => WF t ∧ WFCh r
+end
+
+theorem WFCh_iff (ch : List (Str × Trie β)) : WFCh ch ↔ ∀ kt ∈ ch, WF kt.2 := by
+  induction ch with
+  | nil => simp [WFCh]
+  | cons kt r ih => obtain ⟨k, t⟩ := kt; simp [WFCh, ih]
+
+theorem WF_node (b : β) (ch : List (Str × Trie β)) : WF (node b ch) ↔ AL.NodupKeys ch ∧ ∀ kt ∈ ch, WF kt.2 := by
+  rw [WF, WFCh_iff]; rfl
+
+theorem WF_leaf (b : β) : WF (leaf b) := by
+  rw [leaf, WF_node]; simp [AL.nodupKeys_nil]
+
+theorem WF_child {b : β} {ch : List (Str × Trie β)} {k : Str} {c : Trie β} (h : WF (node b ch)) (hk : AL.get k ch = some c) :
+    WF c := ((WF_node b ch).mp h).2 (k, c) (AL.mem_of_get hk)
+
+theorem WF_set {b : β} {ch : List (Str × Trie β)} (h : WF (node b ch)) (k : Str) (c : Trie β) (hc : WF c) (b' : β) :
+    WF (node b' (AL.set k c ch)) := by
+  rw [WF_node] at h ⊢
+  refine ⟨AL.nodupKeys_set k c h.1, fun kt hkt => ?_⟩
+  rcases AL.mem_set.mp hkt with he | ⟨hm, _⟩
+  · subst he; exact hc
+  · exact h.2 kt hm
+
+theorem WF_del {b : β} {ch : List (Str × Trie β)} (h : WF (node b ch)) (k : Str) (b' : β) :
+    WF (node b' (AL.del k ch)) := by
+  rw [WF_node] at h ⊢
+  exact ⟨AL.nodupKeys_del k h.1, fun kt hkt => h.2 kt (AL.mem_del.mp hkt).1⟩
+
+theorem WF_payload {b b' : β} {ch : List (Str × Trie β)} (h : WF (node b ch)) : WF (node b' ch) := by
+  rw [WF_node] at h ⊢; exact h
+
+theorem WF_update (dflt : β) (f : β → β) (p : List Str) (t : Trie β) (h : WF t) : WF (update dflt f p t) := by
+  induction p generalizing t with
+  | nil => obtain ⟨b, ch⟩ := t; exact WF_payload h
+  | cons l ls ih =>
+    obtain ⟨b, ch⟩ := t
+    simp only [update]
+    apply WF_set h
+    apply ih
+    cases hg : AL.get l ch with
+    | none => exact WF_leaf dflt
+    | some c => exact WF_child h hg
+
+theorem WF_removeGo (g : β → Option β) (dead : β → Bool) (p : List Str) (t : Trie β) (h : WF t) :
+    ∀ t', removeGo g dead p t = some t' → WF t' := by
+  induction p generalizing t with
+  | nil =>
+    obtain ⟨b, ch⟩ := t
+    intro t' ht'
+    simp only [removeGo] at ht'
+    cases hg : g b with
+    | none => simp [hg] at ht'; subst ht'; exact h
+    | some b' =>
+      simp only [hg] at ht'
+      split at ht'
+      · simp at ht'
+      · injection ht' with ht'; subst ht'; exact WF_payload h
+  | cons l ls ih =>
+    obtain ⟨b, ch⟩ := t
+    intro t' ht'
+    simp only [removeGo] at ht'
+    cases hg : AL.get l ch with
+    | none => simp [hg] at ht'; subst ht'; exact h
+    | some c =>
+      simp only [hg] at ht'
+      cases hr : removeGo g dead ls c with
+      | none => simp [hr] at ht'; subst ht'; exact WF_del h l b
+      | some c' =>
+        simp [hr] at ht'; subst ht'
+        exact WF_set h l c' (ih c (WF_child h hg) c' hr) b
+
+theorem WF_remove (g : β → Option β) (dead : β → Bool) (p : List Str) (t : Trie β) (h : WF t) : WF (remove g dead p t) := by
+  unfold remove
+  cases p with
+  | nil => exact h
+  | cons l ls =>
+    simp only
+    cases hr : removeGo g dead (l :: ls) t with
+    | none => exact h
+    | some t' => exact WF_removeGo g dead (l :: ls) t h t' hr
+
+mutual
+/-- with map-like children, the traversal visits exactly the nodes reachable by paths -/
+theorem mem_preOrder (hd : out d = []) : ∀ (t : Trie β), WF t → ∀ x, x ∈ preOrder out t ↔ ∃ q, x ∈ out (viewAt d q t)
+  | node b ch, h, x => by
+    have hch := (WF_node b ch).mp h
+    rw [preOrder, List.mem_append, mem_preOrderCh hd ch hch.2]
+    constructor
+    · rintro (hx | ⟨k, c, q, hm, hx⟩)
+      · exact ⟨[], by simpa using hx⟩
+      · exact ⟨k :: q, by rw [viewAt_cons, AL.get_of_mem hch.1 hm]; exact hx⟩
+    · rintro ⟨q, hx⟩
+      cases q with
+      | nil => exact Or.inl (by simpa using hx)
+      | cons k q =>
+        rw [viewAt_cons] at hx
+        cases hg : AL.get k ch with
+        | none => simp [hg, hd] at hx
+        | some c => exact Or.inr ⟨k, c, q, AL.mem_of_get hg, by simpa [hg] using hx⟩
+theorem mem_preOrderCh (hd : out d = []) : ∀ (ch : List (Str × Trie β)), (∀ kt ∈ ch, WF kt.2) →
+    ∀ x, x ∈ preOrderCh out ch ↔ ∃ k c q, (k, c) ∈ ch ∧ x ∈ out (viewAt d q c)
+  | [], _, x => by simp [preOrderCh]
+  | (k, t) :: r, h, x => by
+    rw [preOrderCh, List.mem_append, mem_preOrder hd t (h (k, t) List.mem_cons_self),
+      mem_preOrderCh hd r (fun kt hkt => h kt (List.mem_cons_of_mem _ hkt))]
+    constructor
+    · rintro (⟨q, hx⟩ | ⟨k', c, q, hm, hx⟩)
+      · exact ⟨k, t, q, List.mem_cons_self, hx⟩
+      · exact ⟨k', c, q, List.mem_cons_of_mem _ hm, hx⟩
+    · rintro ⟨k', c, q, hm, hx⟩
+      rcases List.mem_cons.mp hm with he | hm'
+      · injection he with h1 h2; subst h1; subst h2; exact Or.inl ⟨q, hx⟩
+      · exact Or.inr ⟨k', c, q, hm', hx⟩
+end
+
+mutual
+/-- ... each entry once -/
+theorem nodup_preOrder (hd : out d = []) : ∀ (t : Trie β), WF t → (∀ q, (out (viewAt d q t)).Nodup) → Disjoint d out t →
+    (preOrder out t).Nodup
+  | node b ch, h, hn, hdis => by
+    have hch := (WF_node b ch).mp h
+    rw [preOrder, List.nodup_append]
+    refine ⟨by simpa using hn [], nodup_preOrderCh hd b ch ch hch.1 hch.2 (fun _ hm => hm) hch.1 hn hdis, ?_⟩
+    intro x hx y hy hxy
+    subst hxy
+    obtain ⟨k, c, q, hm, hxq⟩ := (mem_preOrderCh d out hd ch hch.2 x).mp hy
+    have h1 : x ∈ out (viewAt d [] (node b ch)) := by simpa using hx
+    have h2 : x ∈ out (viewAt d (k :: q) (node b ch)) := by rw [viewAt_cons, AL.get_of_mem hch.1 hm]; exact hxq
+    have := hdis _ _ x h1 h2
+    simp at this
+/-- children `r` (a suffix of the node's child list `ch`) -/
+theorem nodup_preOrderCh (hd : out d = []) (b : β) (ch : List (Str × Trie β)) :
+    ∀ (r : List (Str × Trie β)), AL.NodupKeys r → (∀ kt ∈ r, WF kt.2) → (∀ kt ∈ r, kt ∈ ch) → AL.NodupKeys ch →
+      (∀ q, (out (viewAt d q (node b ch))).Nodup) → Disjoint d out (node b ch) → (preOrderCh out r).Nodup
+  | [], _, _, _, _, _, _ => by simp [preOrderCh]
+  | (k, t) :: r, hnk, hwf, hsub, hnch, hn, hdis => by
+    have hnk' : k ∉ AL.keys r ∧ AL.NodupKeys r := by simpa [AL.NodupKeys, AL.keys] using hnk
+    have hkt : AL.get k ch = some t := AL.get_of_mem hnch (hsub _ List.mem_cons_self)
+    rw [preOrderCh, List.nodup_append]
+    refine ⟨?_, nodup_preOrderCh hd b ch r hnk'.2 (fun kt hm => hwf kt (List.mem_cons_of_mem _ hm))
+      (fun kt hm => hsub kt (List.mem_cons_of_mem _ hm)) hnch hn hdis, ?_⟩
+    · apply nodup_preOrder hd t (hwf _ List.mem_cons_self)
+      · intro q; rw [← viewAt_child d hkt]; exact hn _
+      · exact disjoint_child d out hkt hdis
+    · intro x hx y hy hxy
+      subst hxy
+      obtain ⟨q, hxq⟩ := (mem_preOrder d out hd t (hwf _ List.mem_cons_self) x).mp hx
+      obtain ⟨k', c', q', hm', hxq'⟩ :=
+        (mem_preOrderCh d out hd r (fun kt hm => hwf kt (List.mem_cons_of_mem _ hm)) x).mp hy
+      have hk't : AL.get k' ch = some c' := AL.get_of_mem hnch (hsub _ (List.mem_cons_of_mem _ hm'))
+      have h1 : x ∈ out (viewAt d (k :: q) (node b ch)) := by rw [viewAt_child d hkt]; exact hxq
+      have h2 : x ∈ out (viewAt d (k' :: q') (node b ch)) := by rw [viewAt_child d hk't]; exact hxq'
+      have := hdis _ _ x h1 h2
+      simp only [List.cons.injEq] at this
+      exact hnk'.1 (this.1 ▸ List.mem_map.mpr ⟨(k', c'), hm', rfl⟩)
+end
+
 end GmqttVerif.Trie
